@@ -1,14 +1,15 @@
 /-
-  EG.Lemmas.C01ThickBudget — when the pixel budgets of the join models suffice.
+  EG.Lemmas.C01ThickBudget — when the pixel budget of the polyline join model suffices.
 
-  `Joins.pixels` / `Joins.triPixels` drain the pixel iterator with a fuel derived from the styled
-  bounding box (`polyPixelBudget bb * (n + 1)`, `3 (bb.w + 2 width + 4) (bb.h + 1) + 2`). The guards
-  `PolyPixelBudgetOK` / `TriPixelBudgetOK` of the C01 theorems say that fuel was not used up. Here:
-  they follow from a condition on what `draw()` issues — no `fill_solid` rectangle is wider than the
-  bounding box (polyline) / than the bounding box plus twice the stroke width plus 4 (triangle) —
-  and the top row of the box being an `i32`. That condition is a consequence of C02's claim
-  (everything drawn lies inside the bounding box), so wherever C02 is proved the budget guard is
-  discharged. The number of scanlines is bounded by the measures `mu` of the totality proofs.
+  `Joins.pixels` drains the pixel iterator with a fuel derived from the styled bounding box
+  (`polyPixelBudget bb * (n + 1)`). The guard `PolyPixelBudgetOK` of the C01 theorems says that fuel
+  was not used up. Here: it follows from a condition on what `draw()` issues — no `fill_solid`
+  rectangle is wider than the bounding box — and the top row of the box being an `i32`. That
+  condition is a consequence of C02's claim (everything drawn lies inside the bounding box), so
+  wherever C02 is proved the budget guard is discharged. The number of scanlines is bounded by the
+  measure `mu` of the totality proofs.
+  (Styled triangles need no such guard any more: `Joins.triPixels` drains with the total length of the
+  scanline run as fuel, which is proved sufficient — `triPixels_eq_run`, EG/Lemmas/C01ThickTri.lean.)
 -/
 import EG.Lemmas.C01ThickTri
 import EG.Lemmas.JoinsBBoxPolyMain
@@ -35,11 +36,6 @@ theorem poly_budget_arith (W h n mu len : Nat) (hh : 1 ≤ h) (hn : 1 ≤ n)
   have h1 : mu * W ≤ (k * (n + 3) + n + 2) * W := Nat.mul_le_mul_right W hmu
   have h2 : W * k ≤ W * k * n := Nat.le_mul_of_pos_right _ hn
   nlinarith [h1, h2, hlen]
-
-theorem tri_budget_arith (W h mu len : Nat) (hmu : mu ≤ 3 * h) (hlen : len ≤ mu * W) :
-    len < 3 * W * (h + 1) + 2 := by
-  have h1 : mu * W ≤ 3 * h * W := Nat.mul_le_mul_right W hmu
-  nlinarith [h1, hlen]
 
 theorem toRectangle_width {s : Scanline} (h : s.isEmpty = false) :
     s.toRectangle.size.w = s.points.length := by
@@ -140,121 +136,6 @@ theorem polyPixelBudgetOK_of_widths (pl : Polyline) (w : Nat)
           exact poly_budget_arith bb.size.w bb.size.h pl.vertices.length L.length ps.length hh (by omega)
             hlen (by omega)
 
-/-! ### triangle -/
-
-/-- The scanline run of a styled triangle has at most three scanlines per row of the box. -/
-theorem triRun_length_le (t : Tri) (style : TriStyle) (bb : Rect) (hbb : triStyledBoundingBox t style = some bb)
-    (htop : -2147483648 ≤ bb.tl.y) (L : List (Scanline × PointType)) (hL : triScanlineRun t style = some L) :
-    L.length ≤ 3 * bb.size.h := by
-  unfold triScanlineRun triScanlines at hL
-  simp only [hbb, Option.bind_eq_bind, Option.bind_some] at hL
-  cases hit : TriScanlines.new t style.strokeWidth style.strokeAlignment.toOffset style.fillColor.isSome bb with
-  | none => rw [hit] at hL; cases hL
-  | some it =>
-    rw [hit] at hL
-    simp only [Option.bind_some] at hL
-    have hL' : listFuel TriScanlines.nextLoop (3 * ((it.rowsEnd - it.rowsStart).toNat + 1) + 1) it = some L := by
-      rw [← triScanlines_toListFuel_eq]; exact hL
-    have hlen : L.length ≤ TriScanlines.mu it :=
-      listFuel_length_le_mu (fun _ => True) TriScanlines.mu
-        (fun s a s' _ hn => ⟨trivial, triScanlines_next_mu hn⟩) _ it L trivial hL'
-    refine Nat.le_trans hlen ?_
-    unfold TriScanlines.new at hit
-    dsimp only at hit
-    by_cases hrows : bb.tl.y < bb.rowsEnd
-    · have hre := rowsEnd_le bb htop
-      simp only [hrows, ↓reduceIte, Option.bind_eq_bind] at hit
-      cases hints : TriIntersections.new t.sortedClockwise style.strokeWidth style.strokeAlignment.toOffset
-          style.fillColor.isSome bb.tl.y with
-      | none => rw [hints] at hit; cases hit
-      | some ints =>
-        rw [hints] at hit
-        simp only [Option.bind_some, pure, Option.some.injEq] at hit
-        subst hit
-        have hm := TriIntersections.m_le ints
-        unfold TriScanlines.mu
-        dsimp only
-        omega
-    · simp only [hrows, ↓reduceIte, Option.some.injEq] at hit
-      subst hit
-      have : TriScanlines.mu TriScanlines.empty = 0 := by decide
-      omega
-
-/-- **The pixel budget of a styled triangle suffices whenever no `fill_solid` rectangle of `draw()`
-is wider than the bounding box plus twice the stroke width plus 4** (and the top row of the box is
-an `i32`). -/
-theorem triPixelBudgetOK_of_widths (t : Tri) (style : TriStyle) (hf : TriFirstNoneFinal t style)
-    (hwd : ∀ calls bb, triDraw t style = some calls → triStyledBoundingBox t style = some bb →
-      -2147483648 ≤ bb.tl.y ∧ ∀ rc ∈ calls, rc.1.size.w ≤ bb.size.w + 2 * style.strokeWidth + 4) :
-    TriPixelBudgetOK t style := by
-  unfold TriPixelBudgetOK
-  cases hpx : triPixels t style with
-  | none => trivial
-  | some px =>
-    cases hbb : triStyledBoundingBox t style with
-    | none => trivial
-    | some bb =>
-      dsimp only
-      obtain ⟨L, hL, hpre⟩ := triPixels_prefix_run t style hf bb hbb
-      have hne : ∀ x ∈ L, x.1.isEmpty = false := by
-        obtain ⟨li, hli⟩ := triScanlines_total t style
-        obtain ⟨L2, hL2, -, hne2⟩ := triLines li
-        have : triScanlineRun t style = some L2 := by unfold triScanlineRun; rw [hli]; exact hL2
-        rw [hL] at this
-        simp only [Option.some.injEq] at this
-        subst this
-        exact hne2
-      rw [hpx] at hpre
-      simp only [Option.some.injEq] at hpre
-      have hplen : px.length ≤ (L.flatMap (typedPixels style.fillColor style.effectiveStrokeColor)).length := by
-        rw [hpre, List.length_take]; exact Nat.min_le_right _ _
-      have hd : triDraw t style = some (if style.isTransparent then [] else L.filterMap (triCall style)) := by
-        rw [triDraw_eq]
-        unfold triScanlineRun at hL
-        by_cases htr : style.isTransparent = true
-        · simp only [htr, ↓reduceIte]
-        · simp only [htr, Bool.false_eq_true, ↓reduceIte, hL, Option.map_some]
-      obtain ⟨htop, hwid⟩ := hwd _ bb hd hbb
-      have hfull : (L.flatMap (typedPixels style.fillColor style.effectiveStrokeColor)).length ≤
-          L.length * (bb.size.w + 2 * style.strokeWidth + 4) := by
-        by_cases htr : style.isTransparent = true
-        · obtain ⟨h1, h2⟩ := isTransparent_colors htr
-          rw [h1, h2, flatMap_typedPixels_none]
-          exact Nat.zero_le _
-        · apply flatMap_length_le
-          intro x hx
-          obtain ⟨s, k⟩ := x
-          unfold typedPixels linePixels
-          dsimp only
-          rw [← colorOf_eq_kindColor]
-          cases hc : style.colorOf k with
-          | none => exact Nat.zero_le _
-          | some c =>
-            dsimp only
-            rw [List.length_map]
-            have hs : s.isEmpty = false := hne (s, k) hx
-            have hz : s.toRectangle.isZeroSized = false := by
-              rw [toRectangle_of_nonempty hs]
-              unfold Scanline.isEmpty at hs
-              have hx' : s.xs < s.xe := by simpa using hs
-              unfold Rect.isZeroSized
-              simp
-              omega
-            have hmem : (s.toRectangle, c) ∈ (if style.isTransparent then [] else L.filterMap (triCall style)) := by
-              simp only [htr, Bool.false_eq_true, ↓reduceIte]
-              rw [List.mem_filterMap]
-              refine ⟨(s, k), hx, ?_⟩
-              unfold triCall
-              dsimp only
-              rw [hc]
-              simp only [hz, Bool.not_false, ↓reduceIte]
-            have := hwid _ hmem
-            rw [toRectangle_width hs] at this
-            exact this
-      have hlen := triRun_length_le t style bb hbb htop L hL
-      exact tri_budget_arith (bb.size.w + 2 * style.strokeWidth + 4) bb.size.h L.length px.length hlen
-        (by omega)
-
 /-! ### from "everything `draw()` fills lies inside the bounding box" (C02) -/
 
 theorem width_le_of_contained {r bb : Rect} (hz : r.isZeroSized = false)
@@ -309,47 +190,6 @@ theorem polyPixelBudgetOK_of_bboxGuard (pl : Polyline) (w : Nat) (hg : PolyBBoxG
       simp
       omega
     exact width_le_of_contained (bb := ubb.translate pl.translate) hz (hin r hr)
-
-theorem triDraw_rect_nonzero (t : Tri) (style : TriStyle) (calls : List (Rect × Nat))
-    (hd : triDraw t style = some calls) : ∀ rc ∈ calls, rc.1.isZeroSized = false := by
-  rw [triDraw_eq] at hd
-  by_cases htr : style.isTransparent = true
-  · simp only [htr, ↓reduceIte, Option.some.injEq] at hd
-    subst hd
-    intro rc hrc; cases hrc
-  · simp only [htr, Bool.false_eq_true, ↓reduceIte] at hd
-    cases hl : (triScanlines t style).bind TriScanlines.toList with
-    | none => rw [hl] at hd; cases hd
-    | some l =>
-      rw [hl] at hd
-      simp only [Option.map_some, Option.some.injEq] at hd
-      subst hd
-      intro rc hrc
-      rw [List.mem_filterMap] at hrc
-      obtain ⟨x, -, hx⟩ := hrc
-      unfold triCall at hx
-      split at hx
-      · dsimp only at hx
-        split at hx
-        · rename_i hz
-          simp only [Option.some.injEq] at hx
-          subst hx
-          simpa using hz
-        · cases hx
-      · cases hx
-
-/-- **Whenever everything `draw()` fills lies inside the bounding box (C02's claim) and the top row of
-the box is an `i32`, the pixel budget of the triangle model suffices.** -/
-theorem triPixelBudgetOK_of_draw_in_box (t : Tri) (style : TriStyle) (hf : TriFirstNoneFinal t style)
-    (h : ∀ calls bb, triDraw t style = some calls → triStyledBoundingBox t style = some bb →
-      -2147483648 ≤ bb.tl.y ∧ ∀ rc ∈ calls, ∀ p, rc.1.contains p = true → bb.contains p = true) :
-    TriPixelBudgetOK t style := by
-  apply triPixelBudgetOK_of_widths t style hf
-  intro calls bb hd hbb
-  obtain ⟨htop, hin⟩ := h calls bb hd hbb
-  refine ⟨htop, fun rc hrc => ?_⟩
-  have := width_le_of_contained (triDraw_rect_nonzero t style calls hd rc hrc) (hin rc hrc)
-  omega
 
 /-- `styled_bounding_box` is the plain vertex box for widths 0, 1 and for inside strokes. -/
 theorem vertex_box_of_thin_or_inside (t : Tri) (style : TriStyle)
